@@ -99,8 +99,11 @@ Definition y_check table tree w0 (sch : list (choice nat)) (post : bool) (o : ob
 
 Local Open Scope string_scope.
 Definition is_exc (r : R) : bool := match r with 9 :: _ => true | _ => false end.
+(* result code 10: the harness saw the shared resource used outside the component's critical section *)
+Definition is_unguarded (r : R) : bool := match r with 10 :: _ => true | _ => false end.
 Definition blame (o : obs) : list string :=
-  if existsb (existsb is_exc) o then ["no_exception"] else ["linearizable"].
+  if existsb (existsb is_unguarded) o then ["critical_section_discipline"]
+  else if existsb (existsb is_exc) o then ["no_exception"] else ["linearizable"].
 Definition shape_ok {A} (calls : list (list A)) (o : obs) : bool :=
   Nat.eqb (length calls) (length o).
 
